@@ -164,7 +164,7 @@ class CayleyGraphChunkedBfs:
             return
         perms = np.unique(perms)
         keys = perms & self.suffix_mask
-        group_starts = np.where(np.roll(keys, 1) != keys)[0]
+        group_starts = np.concatenate(([0], np.where(keys[1:] != keys[:-1])[0] + 1))
         for i in range(len(group_starts) - 1):
             i1, i2 = group_starts[i], group_starts[i + 1]
             self.chunk_map[keys[i1]].paint_gray(perms[i1:i2])
